@@ -333,3 +333,121 @@ R.contract(MUX + "write_or_buffer", "C16", callee=False,
            ensures_exc=[("fails-only-without-mux", "not present(ctx_LOG_MUX) and len(aj_calls) == 0")],
            # defensive handlers: ContextVar.get() and LogMux.write (a list append) never raise in the model
            unreachable_ok=["mux = None", "pass"])
+
+# ------------------------------------------------------------------ clematis/scripts/rotate_logs.py:rotate_one
+# PRIVATE, TINY file-name model (not pyvc/fsmodel.py, which is being built for C08): ghost `rfs` maps an existing
+# name to the (uninterpreted) thing stored under it; os.path.exists / os.remove are modelled in pyvc/externals.py,
+# atomic_replace by the assumed contract below, which follows the real function: on success src is moved over dst;
+# on failure (any OSError but FileNotFoundError) its clean-up `tmp_path.unlink()` may already have removed src.
+R.untype("Blob")
+RFS = {"rfs": ("Dict[str, Un[Blob]]", "any")}
+ATR = "clematis/io/atomic.py:atomic_replace"
+AR = R.contract(
+    ATR, "C16", verify=False, callee=False, name="atomic_replace(assumed)",
+    types={"tmp_path": "str", "final_path": "str", "retries": "int", "backoff_ms": "int"},
+    requires=[("src-is-not-dst", "tmp_path != final_path")],
+    modifies=["rfs"],
+    ensures=[("moved", "old(tmp_path in rfs) and moved_file(rfs, final_path, old(rfs), tmp_path) and not (tmp_path in rfs) "
+                       "and forall((p, 'str'), p != tmp_path and p != final_path, same_file(rfs, old(rfs), p))")],
+    # PermissionError stands for every OSError that is not a FileNotFoundError (the caller's handlers only
+    # distinguish FileNotFoundError)
+    raises={"FileNotFoundError": "not (tmp_path in rfs)", "PermissionError": None},
+    ensures_exc=[("failed", "forall((p, 'str'), p != tmp_path, same_file(rfs, old(rfs), p)) and "
+                            "(same_file(rfs, old(rfs), tmp_path) or not (tmp_path in rfs))")],
+)
+# generation names: gname(path, k) is *defined* as f"{path}.{k}" (instances added by the ghost call lemma_gname at the
+# points where the code builds such a name); gidx is its left inverse in k -- justified by lemma 'gen_names' below
+# (decimal names of different k differ, none equals `path`).  Keeps string reasoning out of the quantified clauses.
+R.uf("gname", ["str", "int"], "str")
+R.uf("gidx", ["str", "str"], "int")
+R.ghostfun("lemma_gname", ["p", "k"], ensures=["gname(p, k) == p + '.' + str(k)"])
+AX_GNAME = ["forall(k, True, gidx(path, gname(path, k)) == k and gname(path, k) != path)"]
+
+
+def _gen_names_lemma():
+    import z3
+    p = z3.String("p")
+    j, k = z3.Ints("j k")
+
+    def dec(e):      # python str(int)
+        return z3.If(e >= 0, z3.IntToStr(e), z3.Concat(z3.StringVal("-"), z3.IntToStr(-e)))
+
+    def nm(e):
+        return z3.Concat(p, z3.StringVal("."), dec(e))
+    return [("distinct-generations-have-distinct-names", [j != k], nm(j) != nm(k)),
+            ("no-generation-is-named-like-the-live-log", [], nm(k) != p)]
+
+
+R.lemma("gen_names", "C16", _gen_names_lemma)
+
+G = "gname(path, %s)"
+ACTIVE = "(backups >= 1 and not dry_run)"
+ALL_SAME = "forall((p, 'str'), True, same_file(rfs, old(rfs), p))"
+OTHER = "p != path and not is_gen(path, backups, p)"
+GG = "ite(k == 0, path, " + G % "k" + ")"
+GG1 = G % "(k + 1)"
+ROT_EXC = [
+    ("live-log-survives-a-failed-rotation",
+     "implies(old(path in rfs), (path in rfs and rfs[path] == old(rfs)[path]) or "
+     " (" + G % "1" + " in rfs and rfs[" + G % "1" + "] == old(rfs)[path]))"),
+    ("no-generation-but-the-oldest-lost",
+     "forall(k, 0 <= k and k < backups, implies(old(" + GG + " in rfs), "
+     " (" + GG + " in rfs and rfs[" + GG + "] == old(rfs)[" + GG + "]) or "
+     " (" + GG1 + " in rfs and rfs[" + GG1 + "] == old(rfs)[" + GG + "])))"),
+]
+R.contract(
+    "clematis/scripts/rotate_logs.py:rotate_one", "C16", callee=False,
+    types={"path": "str", "backups": "int", "dry_run": "bool"},
+    ghost=RFS,
+    funcs={ATR: AR},
+    axioms=AX_GNAME,
+    setup=["lemma_gname(path, 1)"],      # the last step builds f"{path}.1" inline
+    asserts={"oldest": ["define:" + G % "backups" + " := path + '.' + str(backups)"],
+             "src": ["define:" + G % "k" + " := path + '.' + str(k)"],
+             "dst": ["define:" + G % "(k + 1)" + " := path + '.' + str(k + 1)"]},
+    ensures=[
+        ("disabled-or-dry-run-changes-nothing", "implies(not " + ACTIVE + ", " + ALL_SAME + ")"),
+        ("returns-whether-live-log-existed", "result == (backups >= 1 and old(path in rfs))"),
+        ("generations-shift-by-one-oldest-dropped",
+         "implies(" + ACTIVE + ", forall(k, 1 <= k and k < backups, moved_file(rfs, " + GG1 + ", old(rfs), " + G % "k" + ")))"),
+        ("live-log-becomes-generation-1",
+         "implies(" + ACTIVE + ", moved_file(rfs, " + G % "1" + ", old(rfs), path) and not (path in rfs))"),
+        ("nothing-else-touched",
+         "implies(" + ACTIVE + ", forall((p, 'str'), " + OTHER + ", same_file(rfs, old(rfs), p)))"),
+    ],
+    raises=["OSError"],
+    # exceptional exits (a failing OS call interrupts the rotation): see the concrete-N variants below -- with the
+    # loop invariants in the path condition the solver reaches no verdict on those clauses (neither proof nor model)
+    loops={0: {"modifies": ["rfs"], "inv": [
+        "backups >= 1",
+        "implies(dry_run, " + ALL_SAME + ")",
+        "implies(not dry_run, not (" + G % "(backups - _i)" + " in rfs))",
+        "implies(not dry_run, forall(j, backups - _i <= j and j < backups, moved_file(rfs, " + G % "(j + 1)" + ", old(rfs), " + G % "j" + ")))",
+        "implies(not dry_run, forall(j, 1 <= j and j < backups - _i, same_file(rfs, old(rfs), " + G % "j" + ")))",
+        "implies(not dry_run, same_file(rfs, old(rfs), path))",
+        "implies(not dry_run, forall((p, 'str'), " + OTHER + ", same_file(rfs, old(rfs), p)))",
+    ]}},
+    # the FileNotFoundError handlers guard against a concurrent deletion between exists() and the OS call; the
+    # sequential name-space model has no such race
+    unreachable_ok=["pass"],
+)
+
+# interruption by a failing OS call, for N = 1 and N = 2 kept generations (loop runs concretely, no invariants):
+# every generation but the oldest must still be there, under its old name or under the next one.
+# FINDING (expected to FAIL): atomic_replace "cleans up the temp file on failure" -- here the "temp" is the live log /
+# a kept generation, so a failing os.replace deletes it.
+ROT = R.contracts.get("clematis/scripts/rotate_logs.py:rotate_one")
+for _n in (1, 2):
+    R.contract(
+        "clematis/scripts/rotate_logs.py:rotate_one", "C16", callee=False, name="rotate_one[backups=%d]" % _n,
+        types={"path": "str", "backups": "=%d" % _n, "dry_run": "=False"},
+        # no quantified axiom about gname here (the solver must be able to build counter-models): the ground
+        # definitions of the N names suffice, the string solver separates them
+        ghost=RFS, funcs={ATR: AR}, setup=["lemma_gname(path, %d)" % (j + 1) for j in range(_n)],
+        asserts={"oldest": ["define:" + G % "backups" + " := path + '.' + str(backups)"],
+                 "src": ["define:" + G % "k" + " := path + '.' + str(k)"],
+                 "dst": ["define:" + G % "(k + 1)" + " := path + '.' + str(k + 1)"]},
+        raises=["OSError"],
+        ensures_exc=ROT_EXC,
+        unreachable_ok=["pass", "print(", "if dry_run:"] + (["for k in range", "src = ", "dst = ", "if os.path.exists(src)"] if _n == 1 else []),
+    )
